@@ -10,7 +10,11 @@ RULE = ("A case is (authentic V2 response packet for a frame of length L in {0,1
         "in-transit corruption: single-bit flip / single-byte substitution / truncation / multi-byte corruption), "
         "followed by a clean exchange. Parts 'flip_all' and 'trunc_all' enumerate every bit position and every "
         "truncation length of the 7 fixed packets; 'byte_subst' enumerates positions x substitute values (all 255 "
-        "in thorough, 16 sampled in quick); 'multi' and 'random_packets' are seeded. Distinct = distinct (packet, "
+        "in thorough, 16 sampled in quick); 'byte_subst_boundary_values' puts 10 boundary values at every position, "
+        "also with the altered packet arriving as an extra after the response, alone or right behind an authentic second "
+        "copy in the same instant (then no more frames may be returned than authentic packets were delivered); "
+        "'multi' and 'random_packets' are seeded. A run that does not come back within its real-time budget is a "
+        "liveness violation. Distinct = distinct (packet, "
         "corruption); non-trivial = the corruption actually changed the delivered bytes.")
 ASSUMPTIONS = [
     "corruption is applied to the device->client packet in transit (after signing)",
@@ -55,6 +59,12 @@ def run(plan):
         if plan.get("as_extra"):
             # the altered packet is not the awaited response but an extra one, drained by the next exchange
             dev.script = [{"post_mutated": plan["mutate"]}]
+            authentic = 2
+            if plan.get("pair"):
+                # response, an authentic second copy and the altered copy reach the client in the same instant:
+                # one drain sees [authentic, altered]
+                dev.script = [{"post_mutated": plan["mutate"], "dup": True, "gap": 0}]
+                authentic = 3
             try:
                 g1 = await lan.send(b"\xaa\x01", retries=1)
                 await asyncio.sleep(0.25)
@@ -71,6 +81,9 @@ def run(plan):
                     res.fail("altered packet accepted and decoded to a different frame",
                              f"an extra altered packet surfaced as {[f.hex()[:40] for f in g if f != reply]}")
                     return
+            if len(g1) + len(g2) > authentic:
+                res.fail("more frames returned than authentic packets were delivered",
+                         f"{len(g1)} + {len(g2)} frames from {authentic} authentic packets and one altered packet")
             return
         dev.script = [{"mutate": plan["mutate"]}]
         PE = w.ns.lan.ProtocolError
@@ -118,7 +131,7 @@ def run(plan):
         res.fail(f"liveness: {type(e).__name__}", str(e))
     res.take(w)
     res.add_fired(dev.fired)
-    res.key = (plan["reply"], repr(plan["mutate"]), bool(plan.get("warm")), bool(plan.get("as_extra")))
+    res.key = (plan["reply"], repr(plan["mutate"]), bool(plan.get("warm")), bool(plan.get("as_extra")), bool(plan.get("pair")))
     res.nontrivial = delivered_changed[0]
     return res
 
@@ -168,8 +181,8 @@ def space(tier):
         v = BOUNDARY[j % len(BOUNDARY)]
         k = j // (len(BOUNDARY) * len(pos_index))
         return {"config": base, "reply": frame_for(L).hex(), "mutate": {"kind": "byte", "pos": p, "val": v},
-                "as_extra": k % 2 == 1, "warm": k % 4 == 2}
-    sp.add("byte_subst_boundary_values", len(pos_index) * len(BOUNDARY) * 2, subst_boundary, exhaustive=True)
+                "as_extra": k % 2 == 1, "warm": k % 4 == 2, "pair": k % 4 == 3}
+    sp.add("byte_subst_boundary_values", len(pos_index) * len(BOUNDARY) * 4, subst_boundary, exhaustive=True)
 
     def multi(j, rng):
         L = rng.choice(LENS + [rng.randint(0, 255)])
@@ -190,6 +203,6 @@ def space(tier):
         else:
             m = {"kind": "multi", "edits": [[rng.randrange(n), rng.randrange(1, 256)]]}
         return {"config": dict(base, device_id=rng.getrandbits(64)), "reply": rand_bytes(rng, L).hex(), "mutate": m,
-                "warm": rng.random() < 0.5, "as_extra": rng.random() < 0.25}
+                "warm": rng.random() < 0.5, "as_extra": rng.random() < 0.25, "pair": rng.random() < 0.5}
     sp.add("random_packets", 3000 if tier == "quick" else 400_000, rnd)
     return sp
